@@ -205,7 +205,10 @@ func genSocks(tier string, yield func(Case) bool) bool {
 	}
 	for _, c := range []c5{{`{}`, map[byte]bool{0: true, 1: true, 2: true}}, {`{"auth_methods":[0]}`, map[byte]bool{0: true}}, {`{"auth_methods":[2,128]}`, map[byte]bool{2: true, 128: true}}} {
 		for _, ver := range []byte{5, 4, 6} {
-			for _, ms := range [][]byte{{}, {0}, {2}, {0, 2}, {1}, {128}, {2, 128}, {0, 1, 2}, {255}, {0, 255}} {
+			for _, ms := range [][]byte{{}, {0}, {2}, {0, 2}, {1}, {128}, {2, 128}, {0, 1, 2}, {255}, {0, 255},
+				// a client may offer a method more than once: the list is then longer than the
+				// configured one although every offered method is configured (or one is not)
+				{0, 0}, {2, 2, 2}, {0, 1, 2, 2}, {0, 2, 0, 2, 0}, {2, 128, 2}, {0, 0, 3}, {2, 2, 2, 1}} {
 				m := append([]byte{ver, byte(len(ms))}, ms...)
 				want := ver == 5
 				for _, x := range ms {
@@ -886,7 +889,7 @@ func main() {
 	runner.Main(&runner.Harness{
 		ID:    "C14",
 		Level: "model_checking",
-		Rule:  "per-protocol generators of complete first messages over boundary grids of their fields plus single-field corruptions, under several filter configurations each: ssh, xmpp, proxy_protocol, postgres (request codes, versions, parameters, corrupt lengths), socks4 (version x command x port x address x command/port/network filters), socks5 (method lists x auth_methods), regexp (patterns x count), wireguard (lengths x type x zero), openvpn plain and tls-auth hard-reset (TCP/UDP, opcode, session, acks, packet id, modes; every HMAC size up to the 64-byte maximum), winbox (user names, key length, parity, modes, username filters, 1-2 chunks), dns (names x types x classes x all 16 allow/deny/default_deny/prefer_allow combinations, TCP/UDP, header-bit corruptions), rdp (negotiation flags/protocol bits, cookie filters, structural corruptions), http (methods, hosts, paths, headers x request matcher sets), remote_ip/local_ip and 'not' (IPv4/IPv6 prefixes), clock (window boundaries +-1 s, swapped bounds, 24:00, fixed-offset and IANA zones on DST days); reference predicates are written in the harness from the wire definitions and the modules' documented filter semantics",
+		Rule:  "per-protocol generators of complete first messages over boundary grids of their fields plus single-field corruptions, under several filter configurations each: ssh, xmpp, proxy_protocol, postgres (request codes, versions, parameters, corrupt lengths), socks4 (version x command x port x address x command/port/network filters), socks5 (method lists, also with repeated methods, x auth_methods), regexp (patterns x count), wireguard (lengths x type x zero), openvpn plain and tls-auth hard-reset (TCP/UDP, opcode, session, acks, packet id, modes; every HMAC size up to the 64-byte maximum), winbox (user names, key length, parity, modes, username filters, 1-2 chunks), dns (names x types x classes x all 16 allow/deny/default_deny/prefer_allow combinations, TCP/UDP, header-bit corruptions), rdp (negotiation flags/protocol bits, cookie filters, structural corruptions), http (methods, hosts, paths, headers x request matcher sets), remote_ip/local_ip and 'not' (IPv4/IPv6 prefixes), clock (window boundaries +-1 s, swapped bounds, 24:00, fixed-offset and IANA zones on DST days); reference predicates are written in the harness from the wire definitions and the modules' documented filter semantics",
 		Assumptions: []string{
 			"for 'no' cases an undecided verdict or an error also counts as not matching",
 			"RDP token routing, OpenVPN crypt/crypt2 modes (and auth with a key) and HTTP/2 are exercised by C04/C06/C18 but have no independent predicate here",
